@@ -21,12 +21,13 @@ Not covered: the directory record / SUSP entries (their encoders return record l
 	register("C07", runC07, `Structural clauses of the squashfs round trip, decided statically.
 C07-a layout agreement (byte-layout extraction) for the superblock, the inode header, 12 inode bodies, the directory header and entry and the fragment entry.
 C07-b exhaustiveness: parseInodeBody has a case for every inodeType constant and newCompressor for every compression constant.
-C07-c cache transparency: lru.get returns only what fetch produced or what a previous fetch stored (so results cannot depend on the cache size); shared with C17-e.
+C07-c cache transparency: lru.get returns only what fetch produced or what a previous fetch stored (so results cannot depend on the cache size); shared with C17-e. A cache size of 0 is in the property's quantifier: every call of lru.pop (which panics on an empty list) is dominated by a test that the cache holds at least one block (len(cache) > k for a constant k >= 0, or != 0).
 Not covered: block/fragment packing, compressor behaviour, directory ordering, the Finalize cursor arithmetic.`)
 	register("C19", runC19, `Structural clauses of metadata preservation, decided statically.
 C19-a layout agreement (byte-layout extraction) for the ext4 inode (split uid/gid/size/blocks halves, 4+4 timestamp pairs), the ext4 directory entry, the FAT 8.3 directory record (attribute and case flag bits with their masks, date/time words, split cluster number) and the squashfs inode header.
 C19-b frame conditions: ext4 Chmod stores only permission fields of the inode, Chown only owner/group, Chtimes only the three time fields; the FAT attribute setters store only their own flag.
-C19-c type mappings are total: the file-type switch tables that translate on-disk types to modes and back have a case for every type constant.
+C19-c type mappings are total: the file-type switch tables that translate on-disk types to modes and back have a case for every type constant; wherever a mode is compared with an os.Mode* type constant it has been reduced to its type bits first (m & T, m & os.ModeType, m.Type()).
+C19-d the packed DOS date and time words: the decoder takes each component from the bit offset where the encoder puts it, with a mask exactly as wide as the field.
 Not covered: representable ranges (pre-1980 FAT dates), the 59/60-byte symlink boundary, collection of host metadata at finalize time.`)
 }
 
@@ -52,6 +53,7 @@ func runC07(w *World, r *Report) {
 		r.Obls = append(r.Obls, o)
 		r.seen[o.Key()] = o
 	}
+	c07PopGuard(w, r)
 	r.Floor("C07-a", r.countRule("C07-a"), 15)
 	r.Floor("C07-b", r.countRule("C07-b"), 2)
 	r.Floor("C07-c", r.countRule("C07-c"), 2)
@@ -121,6 +123,9 @@ func runC19(w *World, r *Report) {
 	exhSwitch(w, r, "C19-c", "filesystem/ext4", "inode.permissionsToMode", "fileType", "fileTypeRegularFile")
 	exhSwitch(w, r, "C19-c", "filesystem/ext4", "directoryEntryInfo.Type", "directoryFileType", "dirFileTypeUnknown", "dirFileTypeRegular")
 	exhSwitch(w, r, "C19-c", "filesystem/squashfs", "directoryEntry.Mode", "inodeType")
+	c19TypeTests(w, r)
+	c19DosTime(w, r)
+	r.Floor("C19-d", r.countRule("C19-d"), 8)
 	r.Floor("C19-c", r.countRule("C19-c"), 3)
 	r.Floor("C19-a", r.countRule("C19-a"), 4)
 	r.Floor("C19-b", r.countRule("C19-b"), 6)
@@ -221,4 +226,276 @@ func c19Frames(w *World, r *Report) {
 		sort.Strings(have)
 		r.Check(len(got) == 1 && got[fld], "C19-b", fnName(m), "stores only "+fld, w.relFile(m.Pos()), "", mn+" stores "+strings.Join(have, ",")+" instead of exactly "+fld)
 	}
+}
+
+
+// c07PopGuard: lru.pop panics on an empty list; with the cache disabled (maxBlocks 0, trim(-1)) the list is empty.
+// Every call of pop must be dominated by the true edge of `len(l.cache) > k` (k a constant >= 0) or `!= 0`.
+func c07PopGuard(w *World, r *Report) {
+	pop := w.MethodOpt("filesystem/squashfs", "lru", "pop")
+	if pop == nil {
+		fatalf("C07-c: squashfs lru.pop not found")
+	}
+	n := 0
+	for _, fn := range w.ModFns {
+		if w.pkgOf(fn) != "filesystem/squashfs" || fn.Blocks == nil {
+			continue
+		}
+		for _, c := range calls(fn, false, func(c ssa.CallInstruction) bool { return c.Common().StaticCallee() == pop }) {
+			n++
+			guarded := false
+			for _, b := range fn.Blocks {
+				iff, ok := lastInstr(b).(*ssa.If)
+				if !ok {
+					continue
+				}
+				cond, tIdx := boolCondEdge(iff)
+				bin, ok := cond.(*ssa.BinOp)
+				if !ok {
+					continue
+				}
+				isLenCache := func(v ssa.Value) bool {
+					cl, ok := stripConv(v).(*ssa.Call)
+					if !ok {
+						return false
+					}
+					bi, ok := cl.Call.Value.(*ssa.Builtin)
+					if !ok || bi.Name() != "len" {
+						return false
+					}
+					return w.prov(cl.Call.Args[0], provOpts{}).hasField("lru", "cache")
+				}
+				// the value the length is compared with, as a constant; max(x, c) with a constant c >= 0 is at least c,
+				// which for `len > max(x, c)` is as good as the constant c
+				lowerConst := func(v ssa.Value) (int64, bool) {
+					if k, ok := constInt(v); ok {
+						return k, true
+					}
+					if cl, ok := stripConv(v).(*ssa.Call); ok {
+						if bi, ok := cl.Call.Value.(*ssa.Builtin); ok && bi.Name() == "max" {
+							best, found := int64(0), false
+							for _, a := range cl.Call.Args {
+								if k, ok := constInt(a); ok && (!found || k > best) {
+									best, found = k, true
+								}
+							}
+							return best, found
+						}
+					}
+					return 0, false
+				}
+				var k int64
+				var isC, viaMax bool
+				op := bin.Op
+				switch {
+				case isLenCache(bin.X):
+					k, isC = lowerConst(bin.Y)
+					_, plain := constInt(bin.Y)
+					viaMax = isC && !plain
+				case isLenCache(bin.Y):
+					k, isC = lowerConst(bin.X)
+					_, plain := constInt(bin.X)
+					viaMax = isC && !plain
+					op = map[token.Token]token.Token{token.LSS: token.GTR, token.GTR: token.LSS, token.LEQ: token.GEQ, token.GEQ: token.LEQ, token.NEQ: token.NEQ, token.EQL: token.EQL}[op]
+				default:
+					continue
+				}
+				if !isC {
+					continue
+				}
+				nonEmptyIdx := -1
+				switch {
+				case op == token.GTR && k >= 0, op == token.GEQ && k >= 1, op == token.NEQ && k == 0 && !viaMax:
+					nonEmptyIdx = tIdx
+				case op == token.LEQ && k >= 0, op == token.LSS && k >= 1, op == token.EQL && k == 0 && !viaMax:
+					nonEmptyIdx = 1 - tIdx
+				}
+				if nonEmptyIdx >= 0 && edgeDominates(b, nonEmptyIdx, c.Block()) {
+					guarded = true
+				}
+			}
+			r.Check(guarded, "C07-c", fnName(fn), "eviction pops only a non-empty cache #"+ordinal(fn, c), w.relFile(c.Pos()), "",
+				"lru.pop panics on an empty list and this call is not behind a test that the cache holds a block: with the cache disabled (size 0, trim(-1)) every read panics while holding the cache mutex")
+		}
+	}
+	if n == 0 {
+		r.Ok("C07-c", "filesystem/squashfs", "lru.pop is not called", "filesystem/squashfs", "")
+	}
+}
+
+// c19TypeTests (C19-c): wherever a file mode is compared with one of the os.Mode* type constants, the compared value
+// contains type bits only: it is `m & c` with c inside os.ModeType (a bit test m&T == T, or m&os.ModeType), or the
+// result of FileMode.Type(). A value that still carries setuid/setgid/sticky or permission bits (m &^ os.ModePerm,
+// or m itself) compares unequal for a sticky directory, which is then reported as a regular file.
+func c19TypeTests(w *World, r *Report) {
+	const modeType = 0x8f280000 // os.ModeType: ModeDir|ModeSymlink|ModeNamedPipe|ModeSocket|ModeDevice|ModeCharDevice|ModeIrregular
+	isFileMode := func(t types.Type) bool {
+		n := namedOf(t)
+		return n != nil && n.Obj().Name() == "FileMode" && n.Obj().Pkg() != nil && (n.Obj().Pkg().Path() == "io/fs" || n.Obj().Pkg().Path() == "os")
+	}
+	for _, fn := range w.ModFns {
+		if !strings.HasPrefix(w.pkgOf(fn), "filesystem/") || fn.Blocks == nil {
+			continue
+		}
+		k := 0
+		allInstrs(fn, func(ins ssa.Instruction) {
+			bin, ok := ins.(*ssa.BinOp)
+			if !ok || (bin.Op != token.EQL && bin.Op != token.NEQ) {
+				return
+			}
+			for side := 0; side < 2; side++ {
+				cv, x := bin.Y, bin.X
+				if side == 1 {
+					cv, x = bin.X, bin.Y
+				}
+				c, isC := cv.(*ssa.Const)
+				if !isC || c.Value == nil || !isFileMode(c.Type()) {
+					continue
+				}
+				v, exact := constant.Uint64Val(constant.ToInt(c.Value))
+				if !exact || v == 0 || v&^modeType != 0 {
+					continue // not a pure type constant (0 is the "regular file" / "no bits" test, judged below only with a mask)
+				}
+				k++
+				ok := false
+				switch y := stripConv(x).(type) {
+				case *ssa.BinOp:
+					if y.Op == token.AND {
+						for _, m := range []ssa.Value{y.X, y.Y} {
+							if mc, isC := m.(*ssa.Const); isC && mc.Value != nil {
+								if mv, exact := constant.Uint64Val(constant.ToInt(mc.Value)); exact && mv&^modeType == 0 {
+									ok = true
+								}
+							}
+						}
+					}
+				case *ssa.Call:
+					if g := y.Call.StaticCallee(); g != nil && g.Name() == "Type" {
+						ok = true
+					}
+				}
+				r.Check(ok, "C19-c", fnName(fn), fmt.Sprintf("file type test #%d looks at type bits only", k), w.relFile(bin.Pos()), "",
+					"a mode is compared with a file-type constant without first being reduced to its type bits (m & T, m & os.ModeType or m.Type()): a directory or device that also has setuid, setgid or sticky set compares unequal and is mapped to the default (a regular file)")
+				return
+			}
+		})
+	}
+}
+
+// c19DosTime (C19-d): the packed DOS date and time words. The encoder (timeToDateTime) places each component with a
+// left shift; the decoder (dateTimeToTime) takes it back with a right shift and a mask. The two must describe the same
+// bit fields: same set of shifts per word, and every decoder mask exactly as wide as the field the encoder's shifts
+// leave for it (the next higher shift, or the top of the 16-bit word). A narrower mask loses high values (years past
+// 2043), a wider one lets the neighbour in.
+func c19DosTime(w *World, r *Report) {
+	enc := w.FuncOpt("filesystem/fat12", "timeToDateTime")
+	dec := w.FuncOpt("filesystem/fat12", "dateTimeToTime")
+	if enc == nil || dec == nil {
+		fatalf("C19-d: fat12.timeToDateTime / dateTimeToTime not found")
+	}
+	rets := returnsOf(enc)
+	if len(rets) != 1 || len(rets[0].Results) != 2 || len(dec.Params) != 2 {
+		fatalf("C19-d: unexpected shape of the DOS date/time helpers")
+	}
+	for i, word := range []string{"date", "time"} {
+		// encoder shifts
+		encShifts := map[int64]bool{}
+		for _, t := range addendsOr(stripConv(retResult(rets[0], i))) {
+			v := stripConv(t)
+			if b, ok := v.(*ssa.BinOp); ok && b.Op == token.SHL {
+				if s, ok := constInt(b.Y); ok {
+					encShifts[s] = true
+					continue
+				}
+			}
+			encShifts[0] = true
+		}
+		// decoder extractions from parameter i
+		type ext struct {
+			shift int64
+			mask  int64 // -1: none
+			at    ssa.Instruction
+		}
+		var exts []ext
+		p := dec.Params[i]
+		var follow func(v ssa.Value, shift int64)
+		follow = func(v ssa.Value, shift int64) {
+			masked := false
+			for _, u := range *v.Referrers() {
+				switch x := u.(type) {
+				case *ssa.BinOp:
+					if x.X != v {
+						continue
+					}
+					if s, ok := constInt(x.Y); ok {
+						switch x.Op {
+						case token.SHR:
+							follow(x, shift+s)
+							masked = true
+						case token.AND:
+							exts = append(exts, ext{shift, s, x})
+							masked = true
+						}
+					}
+				case *ssa.Convert:
+					if !masked {
+						exts = append(exts, ext{shift, -1, x})
+						masked = true
+					}
+				}
+			}
+		}
+		follow(p, 0)
+		decShifts := map[int64]bool{}
+		for _, e := range exts {
+			decShifts[e.shift] = true
+		}
+		same := len(encShifts) == len(decShifts)
+		for s := range encShifts {
+			if !decShifts[s] {
+				same = false
+			}
+		}
+		r.Check(same && len(encShifts) >= 3, "C19-d", fnName(dec), "DOS "+word+" word: decoder takes the fields where the encoder puts them", w.relFile(dec.Pos()), fmt.Sprintf("shifts %v", keysOf(encShifts)),
+			fmt.Sprintf("the encoder places the components of the %s word at bit offsets %v, the decoder takes them from %v", word, keysOf(encShifts), keysOf(decShifts)))
+		if !same {
+			continue
+		}
+		var shifts []int64
+		for s := range encShifts {
+			shifts = append(shifts, s)
+		}
+		sort.Slice(shifts, func(a, b int) bool { return shifts[a] < shifts[b] })
+		for _, e := range exts {
+			width := int64(16) - e.shift
+			for _, s := range shifts {
+				if s > e.shift {
+					width = s - e.shift
+					break
+				}
+			}
+			want := int64(1)<<uint(width) - 1
+			ok := e.mask == want || (e.mask == -1 && e.shift+width == 16)
+			r.Check(ok, "C19-d", fnName(dec), fmt.Sprintf("DOS %s word: field at bit %d is %d bits wide", word, e.shift, width), w.relFile(instrPos(e.at)), "",
+				fmt.Sprintf("the field of the %s word at bit %d is %d bits wide (the encoder's next component starts at bit %d), but the decoder masks it with %#x instead of %#x: values that need the missing bits read back wrong (a year past 2043 comes back 64 years early)", word, e.shift, width, e.shift+width, e.mask, want))
+		}
+	}
+}
+
+// addendsOr flattens v through + and | (bit-field packing uses either).
+func addendsOr(v ssa.Value) []ssa.Value {
+	v = stripConv(v)
+	if b, ok := v.(*ssa.BinOp); ok && (b.Op == token.ADD || b.Op == token.OR) {
+		return append(addendsOr(b.X), addendsOr(b.Y)...)
+	}
+	return []ssa.Value{v}
+}
+
+func keysOf(m map[int64]bool) []int64 {
+	var out []int64
+	for k := range m {
+		out = append(out, k)
+	}
+	sort.Slice(out, func(a, b int) bool { return out[a] < out[b] })
+	return out
 }
